@@ -62,6 +62,9 @@ func genCoalPlan(r *rand.Rand, faults bool) *ProxyPlan {
 		if r.IntN(3) == 0 {
 			p.NetBuf = 4096 // small buffers: the proxy blocks on a slow or absent reader
 		}
+		if state == 2 && r.IntN(3) == 0 {
+			res.EvictOnCond = true // the stale entry disappears while the shared revalidation is at the origin
+		}
 	}
 	p.Res = []PRes{res}
 	return p
@@ -85,6 +88,7 @@ func genTroublePlan(r *rand.Rand) *ProxyPlan {
 		if r.IntN(3) == 0 {
 			rs.Chunk = 10000
 		}
+		rs.EvictOnCond = r.IntN(4) == 0
 		if rs.Size > maxBody {
 			maxBody = rs.Size
 		}
@@ -113,6 +117,11 @@ func genTroublePlan(r *rand.Rand) *ProxyPlan {
 			}
 			if r.IntN(4) == 0 {
 				q.ReadChunk = 1024
+			}
+			if r.IntN(12) == 0 {
+				// "another client hanging up": this one leaves, the others must not notice
+				q.Disconnect = []int{-1, 1, 2000}[r.IntN(3)]
+				q.ReadChunk = 512
 			}
 			reqs = append(reqs, q)
 		}
